@@ -160,12 +160,14 @@ def run_c03(tier, seed):
     allcmds = G.DIRECT + G.DERIVED + ["PING", "ECHO", "SELECT", "CONFIG", "AUTH"]
     for name in allcmds:
         per = 12
-        pool = words if tier != "quick" else (words[(len(name) * 7) % 5::5] + newwords)
+        pool = words
+        second = set(words if tier != "quick" else (words[(len(name) * 7) % 5::5] + newwords))
         for i in range(0, len(pool), per):
             reqs = []
             for w in pool[i:i + per]:
                 reqs.append((name, [w]))
-                reqs.append((name, [b"k", w]))
+                if w in second:
+                    reqs.append((name, [b"k", w]))
             reqs.append(("PING", []))
             cases.append(dict(reqs=reqs, line=None, chunk="pipeline" if i % 2 else "whole", quit_at=None, magic=True))
     for key in newwords:
@@ -193,7 +195,7 @@ def run_c03(tier, seed):
         # every fourth case on a password-protected server: requests before the connection's AUTH (if it sends one) are refused,
         # and are answered all the same - one reply each
         pw = None
-        if ci_ % 4 == 3 and c["quit_at"] is None:
+        if ci_ % 4 == 3 and c["quit_at"] is None and not c.get("magic"):
             pw = b"secret"
             if ci_ % 3:
                 c["reqs"] = list(c["reqs"])
